@@ -149,6 +149,8 @@ def vals(t):
         if t[1] == 'NoInfoG':
             return [('NoInfoG(%s)' % x, None) for x, y in vals(t[2][0])][:1]
         if t[1] == 'NoInfo': return [('NoInfo', None)]
+        if t[1] == 'Mode': return [('Mode::Strict', 'V:Strict#0{}')]
+        if t[1] == 'UnitS': return [('UnitS', 'C{}')]
         if t[1] == 'NoInfoTr': return [('NoInfoTr', None)]
     raise ValueError(t)
 
@@ -508,6 +510,8 @@ NG = [I('u8'), I('u32'), BOOL, STRING, VEC(I('u8')), OPT(I('u16')), ARR(I('u8'),
       PH(I('u8')), ('strref', 'static'), BOX(I('u16')), I('i8'), I('u64'), I('u128'), SELFOPT, SELFVEC, TUP(I('u8'), PH(BOOL)), VEC(OPT(BOOL)), I('i32'), I('u16'), ('cowstr',), TUP(I('u8')), VEC(TUP(I('u32'))), TUP(TUP(BOOL), I('u8')),
       # PhantomData in a NESTED position: only a member whose own type is PhantomData is dropped, these are real members
       OPT(PH(I('u8'))), VEC(PH(BOOL)), ARR(PH(I('u8')), 2), TUP(I('u32'), PH(I('u8'))),
+      # members that are zero-sized in memory (a one-variant enum still writes its index byte; a unit struct writes nothing)
+      TUP(I('u8'), NAMED('Mode')), VEC(TUP(NAMED('Mode'), I('u8'))), NAMED('Mode'), TUP(NAMED('UnitS'), I('u16')), NAMED('UnitS'),
       # redundant parentheses at the top and inside
       PAREN(I('u16')), PAREN(OPT(I('u8'))), OPT(PAREN(I('u8'))), PAREN(PAREN(BOOL)), PAREN(('strref', 'static'))]
 S8 = [I('u8'), I('u32'), BOOL, STRING, VEC(I('u8')), PH(I('u8')), SELFOPT, TUP(I('u8'), BOOL), ('cowstr',)]
@@ -1022,6 +1026,10 @@ def gen_definitions(thorough):
     add(D('struct', 'named', named_members([('assoc', 'T', False)]), generics=[('T', 'Tr', None)], skip_params=['T'], inst=u8, noinfo_inst=noinfo_tr), 'skip_type_params(T), T used through T::A')
     add(D('struct', 'named', named_members([('assoc', 'T', True), I('u8')]), generics=[T], where=['T: Tr'], skip_params=['T'], inst=u8, noinfo_inst=noinfo_tr), 'skip_type_params(T), <T as Tr>::A, where clause')
     add(D('struct', 'named', named_members([PH(PARAM('T'))]), generics=[('T', None, 'u8')], skip_params=['T'], inst=u8, noinfo_inst=noinfo), 'skip_type_params(T) with default')
+    # parameters relaxed to ?Sized in the where clause (the derive names every non-skipped parameter through meta_type)
+    add(D('struct', 'named', named_members([BOX(PARAM('T'))]), generics=[T], where=['T: ?Sized'], inst=u8), 'where T: ?Sized {Box<T>}')
+    add(D('struct', 'named', named_members([BOX(PARAM('T')), PH(PARAM('U'))]), generics=[T, U], where=['T: ?Sized', 'U: ?Sized'], inst=u8), 'where T: ?Sized, U: ?Sized {Box<T>, PhantomData<U>}')
+    add(D('enum', variants=[V('A', 'unit'), V('B', 'tuple', tuple_members([BOX(PARAM('T'))]))], generics=[T], where=['T: ?Sized'], inst=u8), 'enum where T: ?Sized')
     # #[codec(skip)] members and variants need no type info
     def skipm(ty, name=None):
         m = M(ty, name)
